@@ -1,7 +1,7 @@
 (* C13 - property theorems only. *)
 From Coq Require Import Reals List.
 From Coquelicot Require Import Coquelicot.
-Require Import PV.Num PV.FitWrap PV.Grad.
+Require Import PV.Num PV.FitWrap PV.FitRate PV.Grad.
 Import ListNotations.
 Local Open Scope R_scope.
 
@@ -49,6 +49,16 @@ Theorem C13_twice_nll_norm_chain : forall (m : R -> R) (dm x sigma : R), is_deri
             (2 * (/ (sigma * sigma)) * (m 0 - x) * dm).
 Proof. exact twice_nll_norm_chain. Qed.
 
+(* the gradient the check evaluates: for bins whose samples carry no histosys piece the rate is a + * expression of the
+   parameters and the dual evaluation of the rate model yields (rate, partial derivative along coordinate j).
+   partial: cells with histosys pieces additionally rest on the derivative of the interpolation code in the selected
+   regime (C03) and are covered by the correspondence only *)
+Theorem C13_rate_dual_is_derivative_partial : forall (x : list R) (j : nat) (cells : list (cell RNum)), List.Forall plain cells ->
+  fst (rate_dual RNum x j cells) = bin_rate RNum x cells /\
+  is_derive (fun t => bin_rate RNum (moved_from 0 j t x) cells) 0 (snd (rate_dual RNum x j cells)).
+Proof. exact rate_dual_is_derivative_partial. Qed.
+
+Print Assumptions C13_rate_dual_is_derivative_partial.
 Print Assumptions C13_stitched_gradient.
 Print Assumptions C13_stitched_perturb.
 Print Assumptions C13_dual_is_derivative.
